@@ -1,6 +1,8 @@
 import ParryModel.Field
 import ParryModel.C03.Model
 import ParryModel.C03.Lemmas
+import ParryModel.C03.Sat
+import ParryModel.C03.Theorems2
 /-!
 # C03 property theorems: argument-order and frame independence.
 
@@ -11,6 +13,8 @@ Part 1: the isometry group (nalgebra's concrete quaternion formulas form a group
 Part 2: result-flipping helpers and the mirrored wrappers (swap of arguments = flip of the result).
 Part 3: the free functions (`pos12 = pos1⁻¹·pos2`, back-transform): frame independence and swap symmetry.
 Part 4: the pinned-tree defect, refuted by a concrete witness.
+Part 5 (end of file, on top of `Theorems2.lean`): the closed-form cuboid/cuboid intersection test — argument order,
+world frame, and soundness of the verdict "disjoint".
 -/
 namespace C03
 open Model
@@ -658,6 +662,91 @@ theorem query2_frame_and_swap (d12 d21 : Iso2 K → Option (Contact2 K)) {α : T
       simp only [Option.map_some, Contact2.transformBy, (iso2_mul_act sq g p1 _).1, (iso2_mul_act sq g p2 _).1,
         (iso2_mul_act sq g p1 _).2, (iso2_mul_act sq g p2 _).2]
   · cases d12 (@Iso2.invMul K (fieldNum K sq) p1 p2) <;> rfl
+
+example : Unit2 (⟨3/5, 4/5, ⟨1, -2⟩⟩ : Iso2 ℚ) := by unfold Unit2; norm_num
+
+/-! ## Part 5 — `intersection_test_cuboid_cuboid` (closed-form separating-axis test) -/
+
+open Model.CC in
+/-- **Argument-order symmetry of `intersection_test_cuboid_cuboid`.**  Exchanging the cuboids and inverting `pos12`
+gives the same verdict: the two one-way face-normal tests exchange their roles, and the edge/edge test finds a
+separating axis in one order iff it finds one in the other (`satEdgeTwoway_swap`: all nine edge pairs are tested in
+both orders). -/
+theorem intersectionTestCuboidCuboid_swap (m : Iso3 K) (he1 he2 : V3 K) (h : Unit3 m) :
+    letI := fieldNum K sq
+    intersectionTestCuboidCuboid m he1 he2 = intersectionTestCuboidCuboid m.inverse he2 he1 := by
+  have hinv := iso3_inverse_inverse sq m h
+  have hedge := satEdgeTwoway_swap sq he1 he2 m h
+  have hC : (@satEdgeTwoway K (fieldNum K sq) he1 he2 m).1 ≤ 0 ↔
+      (@satEdgeTwoway K (fieldNum K sq) he2 he1 (@Iso3.inverse K (fieldNum K sq) m)).1 ≤ 0 := by
+    rw [← not_lt, ← not_lt, hedge]
+  unfold intersectionTestCuboidCuboid
+  simp only []
+  rw [hinv]
+  simp only [hC]
+  by_cases hA : 0 < (@satNormalOneway K (fieldNum K sq) he1 he2 m).1 <;>
+  by_cases hB : 0 < (@satNormalOneway K (fieldNum K sq) he2 he1 (@Iso3.inverse K (fieldNum K sq) m)).1 <;>
+  simp [hA, hB]
+
+open Model.CC in
+/-- **The free function `query::intersection_test` on two cuboids** does not depend on the argument order nor on
+the world frame: `intersection_test(pos2, c2, pos1, c1) = intersection_test(pos1, c1, pos2, c2)`
+`= intersection_test(g·pos1, c1, g·pos2, c2)`. -/
+theorem queryIntersectionTest_cuboidCuboid (he1 he2 : V3 K) (p1 p2 g : Iso3 K)
+    (h1 : Unit3 p1) (h2 : Unit3 p2) (hg : Unit3 g) :
+    letI := fieldNum K sq
+    queryIntersectionTest (fun m => intersectionTestCuboidCuboid m he2 he1) p2 p1
+      = queryIntersectionTest (fun m => intersectionTestCuboidCuboid m he1 he2) p1 p2 ∧
+    queryIntersectionTest (fun m => intersectionTestCuboidCuboid m he1 he2) (g.mul p1) (g.mul p2)
+      = queryIntersectionTest (fun m => intersectionTestCuboidCuboid m he1 he2) p1 p2 := by
+  refine ⟨?_, (query_scalar_frame sq _ g p1 p2 hg h1).2⟩
+  simp only [queryIntersectionTest]
+  rw [iso3_invMul_swap sq p1 p2 h1 h2]
+  exact (intersectionTestCuboidCuboid_swap sq _ he1 he2 (unit3_invMul sq p1 p2 h1 h2)).symm
+
+example : Unit3 (⟨0, 0, 3/5, 4/5, ⟨1, -2, 3⟩⟩ : Iso3 ℚ) ∧ Unit3 (⟨2/3, 1/3, 2/3, 0, ⟨0, 0, 0⟩⟩ : Iso3 ℚ) := by
+  unfold Unit3; norm_num
+
+open Model.CC in
+/-- **Soundness of the verdict "disjoint".**  If `intersection_test_cuboid_cuboid` returns `false`, no point of
+cuboid 2 (posed by `pos12`) coincides with a point of cuboid 1 — whichever of the fifteen candidate axes triggered
+the verdict.  (The converse, completeness of the fifteen axes, is not proved here; it is judged on every case by the
+exact-rational oracle.) -/
+theorem intersectionTestCuboidCuboid_false_disjoint (m : Iso3 K) (he1 he2 : V3 K) (h : Unit3 m)
+    (hf : @intersectionTestCuboidCuboid K (fieldNum K sq) m he1 he2 = false) (x y : V3 K)
+    (hx : @Cuboid3.Mem K (fieldNum K sq) ⟨he1⟩ x) (hy : @Cuboid3.Mem K (fieldNum K sq) ⟨he2⟩ y) :
+    letI := fieldNum K sq
+    m.act y ≠ x := by
+  unfold intersectionTestCuboidCuboid at hf
+  simp only [] at hf
+  by_cases hA : 0 < (@satNormalOneway K (fieldNum K sq) he1 he2 m).1
+  · exact satNormalOneway_sound sq he1 he2 m h hA x y hx hy
+  · by_cases hB : 0 < (@satNormalOneway K (fieldNum K sq) he2 he1 (@Iso3.inverse K (fieldNum K sq) m)).1
+    · have hne := satNormalOneway_sound sq he2 he1 _ (unit3_inverse sq m h) hB y x hy hx
+      intro heq
+      apply hne
+      rw [← heq]
+      exact (iso3_inverse_act sq m y h).1
+    · have hf' : 0 < (@satEdgeTwoway K (fieldNum K sq) he1 he2 m).1 := by simpa [hA, hB] using hf
+      exact satEdgeTwoway_sound sq he1 he2 m h hf' x y hx hy
+
+example : Unit3 (⟨0, 0, 3/5, 4/5, ⟨1, -2, 3⟩⟩ : Iso3 ℚ) ∧
+    @Cuboid3.Mem ℚ (fieldNum ℚ id) ⟨⟨1, 2, 3⟩⟩ ⟨-1, 1/2, 3⟩ := by
+  unfold Unit3 Cuboid3.Mem; norm_num
+
+open Model.CC in
+/-- **2-D: argument-order symmetry of `intersection_test_cuboid_cuboid`** (two one-way face-normal tests, no
+edge/edge axes in the plane): exchanging the rectangles and inverting `pos12` gives the same verdict. -/
+theorem intersectionTestCuboidCuboid2_swap (m : Iso2 K) (he1 he2 : V2 K) (h : Unit2 m) :
+    letI := fieldNum K sq
+    intersectionTestCuboidCuboid2 m he1 he2 = intersectionTestCuboidCuboid2 m.inverse he2 he1 := by
+  have hinv := (iso2_inverse_inverse sq m m h h).1
+  unfold intersectionTestCuboidCuboid2
+  simp only []
+  rw [hinv]
+  by_cases hA : 0 < (@satNormalOneway2 K (fieldNum K sq) he1 he2 m).1 <;>
+  by_cases hB : 0 < (@satNormalOneway2 K (fieldNum K sq) he2 he1 (@Iso2.inverse K (fieldNum K sq) m)).1 <;>
+  simp [hA, hB]
 
 example : Unit2 (⟨3/5, 4/5, ⟨1, -2⟩⟩ : Iso2 ℚ) := by unfold Unit2; norm_num
 
